@@ -1,4 +1,5 @@
 import BadgerModel.Watermark
+import BadgerModel.Oracle
 import BadgerModel.Driver.Util
 /-!
 `watermark` engine: a session is `reset` followed by marks. One output line per op:
@@ -59,5 +60,342 @@ def wmStep (s : WM) (line : String) : WM × String :=
     | some i, some w => wmApply s (.wait i w)
     | _, _ => (s, "bad-op")
   | _ => (s, "bad-op")
+
+/-! ## `oracle` engine (call level) and `txn` engine (a DB driven through the Txn API)
+
+After every op the harness waits for quiescence of both watermarks (`VerifBarrier`), so the
+driver drains both queues after every op (`sysDrain`). Output: `<result> woke=<tid:readTs,…|->
+next=… lc=… dt=… rd=… td=… ct=<ts:k,k;…|->`. -/
+
+def sortNat (l : List Nat) : List Nat := l.mergeSort (fun a b => decide (a ≤ b))
+
+/-- Quiescence: every queued mark of both watermarks is processed, wake-ups delivered. -/
+def sysDrain (s : Sys) : Sys × List Wakeup :=
+  let r := s.o.drain
+  ({ s with o := r.1, txns := wakeTxns s.txns r.2,
+            crashed := s.crashed || r.1.txnMark.wm.failed || r.1.readMark.wm.failed }, r.2)
+
+def ctStr (keyStr : Nat → String) (l : List CommittedTxn) : String :=
+  if l.isEmpty then "-" else
+  ";".intercalate (l.map (fun c =>
+    s!"{c.ts}:" ++ ",".intercalate ((c.conflictKeys.map keyStr).mergeSort (fun a b => decide (a ≤ b)))))
+
+def dumpStr (keyStr : Nat → String) (s : Sys) : String :=
+  s!"next={s.o.nextTxnTs} lc={s.o.lastCleanupTs} dt={s.o.discardTs} rd={s.o.readMark.doneUntil} td={s.o.txnMark.doneUntil} ct={ctStr keyStr s.o.committedTxns}"
+
+/-- `tid:readTs` of the transactions that were parked in `before` and are active in `after`. -/
+def wokeTxnStr (before after : List TxnSt) : String :=
+  let l := (List.range after.length).filterMap (fun i =>
+    match before[i]?, after[i]? with
+    | some b, some a => if b.phase = .parked ∧ a.phase = .active then some s!"{i}:{a.t.readTs}" else none
+    | _, _ => none)
+  if l.isEmpty then "-" else ",".intercalate l
+
+def orcOut (keyStr : Nat → String) (res : String) (before : Sys) (after : Sys) : String :=
+  s!"{res} woke={wokeTxnStr before.txns after.txns} {dumpStr keyStr after}"
+
+/-- Apply a label; `none` when it is not enabled or when it would crash the process
+    (the harness refuses such calls: `assert`). -/
+def tryStep (s : Sys) (l : Label) : Option Sys :=
+  match s.step l with
+  | some s' => if s'.crashed then none else some s'
+  | none => none
+
+def isAssert (s : Sys) (l : Label) : Bool :=
+  match s.step l with
+  | some s' => s'.crashed
+  | none => false
+
+def boolArg (s : String) : Option Bool :=
+  if s == "1" then some true else if s == "0" then some false else none
+
+/-- Run labels in sequence, draining after each. -/
+def stepDrain (s : Sys) (l : Label) : Option Sys :=
+  match tryStep s l with
+  | some s' => some (sysDrain s').1
+  | none => none
+
+def orcStep (s : Sys) (line : String) : Sys × String :=
+  let ks : Nat → String := fun k => toString k
+  let out (res : String) (s' : Sys) : Sys × String := (s', orcOut ks res s s')
+  match words line with
+  | ["reset", m, d, n] =>
+    match boolArg m, boolArg d, natArg n with
+    | some m, some d, some n =>
+      let s' := (sysDrain (Sys.opened m d n)).1
+      (s', orcOut ks "ok" s' s')
+    | _, _, _ => (s, "bad-op")
+  | ["readts", tid, upd] =>
+    match natArg tid, boolArg upd with
+    | some tid, some upd =>
+      if tid ≠ s.txns.length then out "skip" s else
+      match stepDrain s (.begin upd) with
+      | some s1 =>
+        match stepDrain s1 (.waitCheck tid) with
+        | some s2 =>
+          match s2.txns[tid]? with
+          | some x => if x.phase = .active then out s!"r={x.t.readTs}" s2 else out "blocked" s2
+          | none => out "skip" s
+        | none => out "skip" s
+      | none => out "skip" s
+    | _, _ => (s, "bad-op")
+  | ["beginat", tid, r, upd] =>
+    match natArg tid, natArg r, boolArg upd with
+    | some tid, some r, some upd =>
+      if tid ≠ s.txns.length then out "skip" s else
+      match stepDrain s (.beginAt r upd) with
+      | some s1 => out "ok" s1
+      | none => out "skip" s
+    | _, _, _ => (s, "bad-op")
+  | ["read", tid, fp] =>
+    match natArg tid, natArg fp with
+    | some tid, some fp =>
+      match stepDrain s (.read tid fp) with
+      | some s1 => out "ok" s1
+      | none => out "skip" s
+    | _, _ => (s, "bad-op")
+  | ["write", tid, fp] =>
+    match natArg tid, natArg fp with
+    | some tid, some fp =>
+      match stepDrain s (.write tid fp) with
+      | some s1 => out "ok" s1
+      | none => out "skip" s
+    | _, _ => (s, "bad-op")
+  | ["commit", tid] =>
+    match natArg tid with
+    | some tid =>
+      if isAssert s (.commit tid) then out "assert" s else
+      match stepDrain s (.commit tid) with
+      | some s1 =>
+        let res := match s1.txns[tid]? with
+          | some x => match x.committedAt with
+            | some ts => s!"ok ts={ts}"
+            | none => "conflict"
+          | none => "?"
+        -- the harness calls cleanupCommittedTransactions after quiescence
+        match stepDrain s1 .cleanup with
+        | some s2 => out res s2
+        | none => out res s1
+      | none => out "skip" s
+    | none => (s, "bad-op")
+  | ["commitat", tid, ts] =>
+    match natArg tid, natArg ts with
+    | some tid, some ts =>
+      if isAssert s (.commitAt tid ts) then out "assert" s else
+      match stepDrain s (.commitAt tid ts) with
+      | some s1 =>
+        let res := match s1.txns[tid]? with
+          | some x => match x.committedAt with
+            | some ts => s!"ok ts={ts}"
+            | none => "conflict"
+          | none => "?"
+        out res s1
+      | none => out "skip" s
+    | _, _ => (s, "bad-op")
+  | ["discard", tid] =>
+    match natArg tid with
+    | some tid =>
+      match stepDrain s (.discard tid) with
+      | some s1 => out "ok" s1
+      | none => out "skip" s
+    | none => (s, "bad-op")
+  | ["donecommit", ts] =>
+    match natArg ts with
+    | some ts =>
+      match stepDrain s (.doneCommit ts) with
+      | some s1 => out "ok" s1
+      | none => out "skip" s
+    | none => (s, "bad-op")
+  | ["setdiscard", ts] =>
+    match natArg ts with
+    | some ts =>
+      if isAssert s (.setDiscardTs ts) then out "assert" s else
+      match stepDrain s (.setDiscardTs ts) with
+      | some s1 => out "ok" s1
+      | none => out "skip" s
+    | none => (s, "bad-op")
+  | ["cleanup"] =>
+    if isAssert s .cleanup then out "assert" s else
+    match stepDrain s .cleanup with
+    | some s1 => out "ok" s1
+    | none => out "skip" s
+  | _ => (s, "bad-op")
+
+/-! ### `txn` engine: a naive multi-version store next to the oracle model -/
+
+structure TxnDrv where
+  sys : Sys := Sys.opened false true 0
+  /-- committed versions: key (hex), commit ts, value (`none` = deleted) -/
+  store : List (String × Nat × Option String) := []
+  /-- pending writes of open transactions: tid, key, value; latest last -/
+  pend : List (Nat × String × Option String) := []
+  /-- fingerprint → key -/
+  keys : List (Nat × String) := []
+
+def keyFp (k : String) : Nat :=
+  match fromHex k with
+  | some b => leNat (b ++ [1])
+  | none => 0
+
+def TxnDrv.keyStr (d : TxnDrv) (fp : Nat) : String := (d.keys.lookup fp).getD "?"
+
+def TxnDrv.note (d : TxnDrv) (k : String) : TxnDrv :=
+  if (d.keys.lookup (keyFp k)).isSome then d else { d with keys := d.keys ++ [(keyFp k, k)] }
+
+/-- Latest committed version of `k` with `ts ≤ r`. -/
+def snapGet (store : List (String × Nat × Option String)) (k : String) (r : Nat) : Option String :=
+  let vs := store.filter (fun e => e.1 == k && decide (e.2.1 ≤ r))
+  match vs.foldl (fun (best : Option (Nat × Option String)) e =>
+      match best with
+      | some (bt, _) => if bt ≤ e.2.1 then some (e.2.1, e.2.2) else best
+      | none => some (e.2.1, e.2.2)) none with
+  | some (_, v) => v
+  | none => none
+
+def pendGet (pend : List (Nat × String × Option String)) (tid : Nat) (k : String) : Option (Option String) :=
+  (pend.reverse.find? (fun e => e.1 == tid && e.2.1 == k)).map (·.2.2)
+
+def hexLe (a b : String) : Bool :=
+  match fromHex a, fromHex b with
+  | some x, some y => cmpBytes x y != .gt
+  | _, _ => decide (a ≤ b)
+
+def dedup (l : List String) : List String :=
+  l.foldl (fun acc k => if acc.contains k then acc else acc ++ [k]) []
+
+def valStr (v : Option String) : String :=
+  match v with
+  | some v => s!"v={v}"
+  | none => "nf"
+
+def txnStep (d : TxnDrv) (line : String) : TxnDrv × String :=
+  let s := d.sys
+  let fin (res : String) (d' : TxnDrv) : TxnDrv × String :=
+    (d', s!"{res} {dumpStr d'.keyStr d'.sys}")
+  match words line with
+  | ["reset", det] =>
+    match boolArg det with
+    | some det =>
+      let d' : TxnDrv := { sys := (sysDrain (Sys.opened false det 0)).1 }
+      fin "ok" d'
+    | none => (d, "bad-op")
+  | ["begin", tid, upd] =>
+    match natArg tid, boolArg upd with
+    | some tid, some upd =>
+      if tid ≠ s.txns.length then fin "skip" d else
+      match stepDrain s (.begin upd) with
+      | some s1 =>
+        match stepDrain s1 (.waitCheck tid) with
+        | some s2 =>
+          match s2.txns[tid]? with
+          | some x => if x.phase = .active then fin s!"r={x.t.readTs}" { d with sys := s2 }
+                      else fin "blocked" { d with sys := s2 }
+          | none => fin "skip" d
+        | none => fin "skip" d
+      | none => fin "skip" d
+    | _, _ => (d, "bad-op")
+  | ["get", tid, k] =>
+    match natArg tid with
+    | some tid =>
+      match s.txns[tid]? with
+      | some x =>
+        if x.phase ≠ .active then fin "err=discarded" d else
+        let d := d.note k
+        match (if x.t.update then pendGet d.pend tid k else none) with
+        | some v => fin (valStr v) d
+        | none =>
+          match stepDrain s (.read tid (keyFp k)) with
+          | some s1 => fin (valStr (snapGet d.store k x.t.readTs)) { d with sys := s1 }
+          | none => fin "skip" d
+      | none => fin "skip" d
+    | none => (d, "bad-op")
+  | ["set", tid, k, v] =>
+    match natArg tid with
+    | some tid =>
+      match s.txns[tid]? with
+      | some x =>
+        if !x.t.update then fin "err=readonly" d else
+        if x.phase ≠ .active then fin "err=discarded" d else
+        let d := d.note k
+        match stepDrain s (.write tid (keyFp k)) with
+        | some s1 => fin "ok" { d with sys := s1, pend := d.pend ++ [(tid, k, some v)] }
+        | none => fin "skip" d
+      | none => fin "skip" d
+    | none => (d, "bad-op")
+  | ["del", tid, k] =>
+    match natArg tid with
+    | some tid =>
+      match s.txns[tid]? with
+      | some x =>
+        if !x.t.update then fin "err=readonly" d else
+        if x.phase ≠ .active then fin "err=discarded" d else
+        let d := d.note k
+        match stepDrain s (.write tid (keyFp k)) with
+        | some s1 => fin "ok" { d with sys := s1, pend := d.pend ++ [(tid, k, none)] }
+        | none => fin "skip" d
+      | none => fin "skip" d
+    | none => (d, "bad-op")
+  | ["iter", tid] =>
+    match natArg tid with
+    | some tid =>
+      match s.txns[tid]? with
+      | some x =>
+        if x.phase ≠ .active then fin "err=discarded" d else
+        let own := if x.t.update then (d.pend.filter (fun e => e.1 == tid)).map (·.2.1) else []
+        let cand := (dedup (own ++ d.store.map (·.1))).mergeSort hexLe
+        let items := cand.filterMap (fun k =>
+          let v := match (if x.t.update then pendGet d.pend tid k else none) with
+            | some v => v
+            | none => snapGet d.store k x.t.readTs
+          v.map (fun v => (k, v)))
+        -- `Iterator.Item` tracks every key it yields (own pending writes included)
+        let s1 := items.foldl (fun acc kv =>
+          match stepDrain acc (.read tid (keyFp kv.1)) with
+          | some a => a
+          | none => acc) s
+        let res := if items.isEmpty then "items=-" else
+          "items=" ++ ",".intercalate (items.map (fun kv => s!"{kv.1}:{kv.2}"))
+        fin res { d with sys := s1 }
+      | none => fin "skip" d
+    | none => (d, "bad-op")
+  | ["commit", tid] =>
+    match natArg tid with
+    | some tid =>
+      match s.txns[tid]? with
+      | some x =>
+        if x.phase ≠ .active then fin "err=discarded" d else
+        if !(x.t.update && x.t.hasWrites) then
+          -- `len(pendingWrites) == 0`: Commit only discards
+          match stepDrain s (.discard tid) with
+          | some s1 => fin "ok-empty" { d with sys := (stepDrain s1 .cleanup).getD s1 }
+          | none => fin "skip" d
+        else
+        match stepDrain s (.commit tid) with
+        | some s1 =>
+          match (s1.txns[tid]?).bind (·.committedAt) with
+          | some ts =>
+            -- the write pipeline applies the batch, then `doneCommit(ts)`; `Commit` returns
+            let mine := d.pend.filter (fun e => e.1 == tid)
+            let ks := dedup (mine.map (·.2.1))
+            let newVs := ks.filterMap (fun k => (pendGet d.pend tid k).map (fun v => (k, ts, v)))
+            let s2 := (stepDrain s1 (.doneCommit ts)).getD s1
+            let s3 := (stepDrain s2 .cleanup).getD s2
+            fin s!"ok ts={ts}" { d with sys := s3, store := d.store ++ newVs }
+          | none =>
+            -- ErrConflict; the deferred Discard runs
+            let s2 := (stepDrain s1 (.discard tid)).getD s1
+            let s3 := (stepDrain s2 .cleanup).getD s2
+            fin "conflict" { d with sys := s3 }
+        | none => fin "skip" d
+      | none => fin "skip" d
+    | none => (d, "bad-op")
+  | ["discard", tid] =>
+    match natArg tid with
+    | some tid =>
+      match stepDrain s (.discard tid) with
+      | some s1 => fin "ok" { d with sys := s1 }
+      | none => fin "skip" d
+    | none => (d, "bad-op")
+  | _ => (d, "bad-op")
 
 end Badger.Driver
